@@ -174,7 +174,8 @@ def r15_datafile_order(ctx, rule='R15'):
              'UNLINK': ext(ctx, 'os.unlink', 'os.remove')}
     pes, problems = check_order(
         ctx, rule, rp, preds,
-        before=[('FINALIZE_FILE', 'TELL'), ('FINALIZE_FILE', 'HASH'), ('TELL', 'CLOSE'), ('HASH', 'CLOSE'),
+        not_after=[('HASH', 'CLOSE'), ('TELL', 'CLOSE')],
+        before=[('FINALIZE_FILE', 'TELL'), ('FINALIZE_FILE', 'HASH'), ('TELL', 'CLOSE'),
                 ('FINALIZE_FILE', 'WRITE_OUT'), ('CLOSE', 'WRITE_OUT'), ('WRITE_OUT', 'UNLINK')],
         after_loop=[(x, lp) for x in ('FINALIZE_FILE', 'TELL', 'HASH', 'CLOSE', 'WRITE_OUT', 'UNLINK')],
         forbid_ctx=['WRITE_OUT', 'FINALIZE_FILE'], required=['FINALIZE_FILE', 'TELL', 'CLOSE', 'WRITE_OUT'],
